@@ -62,8 +62,9 @@ impl<'a, 'b> PGen<'a, 'b> {
             0 => Stage::Map(self.d.below(5) as u8),
             1 => Stage::Filter(self.d.below(5) as u8),
             2 => Stage::Scan(self.d.below(4) as u8, self.d.below(7) as i64 - 2),
-            3 => Stage::Take(1 + self.d.below(6) as u8),
-            _ => Stage::Skip(self.d.below(6) as u8),
+            // 255 stands for usize::MAX (scn::count_param)
+            3 => Stage::Take(if self.d.below(12) == 11 { 255 } else { 1 + self.d.below(6) as u8 }),
+            _ => Stage::Skip(if self.d.below(12) == 11 { 255 } else { self.d.below(6) as u8 }),
         }
     }
     fn pipes(&mut self, depth: usize, max: usize) -> Vec<Pipe> {
@@ -201,8 +202,8 @@ fn ref_pipe<'a>(p: &'a Pipe, uses: &Rc<RefCell<Vec<LeafUse>>>) -> Box<dyn Iterat
                     Some(*acc)
                 }))
             }
-            Stage::Take(n) => Box::new(it.take(*n as usize)),
-            Stage::Skip(n) => Box::new(it.skip(*n as usize)),
+            Stage::Take(n) => Box::new(it.take(crate::scn::count_param(*n))),
+            Stage::Skip(n) => Box::new(it.skip(crate::scn::count_param(*n))),
             Stage::ConcatWith(ps) => {
                 let uses = Rc::clone(uses);
                 Box::new(it.chain(ps.iter().flat_map(move |q| ref_pipe(q, &uses))))
@@ -293,11 +294,11 @@ fn real_stage(w: &Arc<World>, st: &Stage, nested: bool) -> StageFn {
             })
         }
         Stage::Take(n) => {
-            let n = *n as usize;
+            let n = crate::scn::count_param(*n);
             Box::new(move |s| Arc::new(callbag::take(n)(s)))
         }
         Stage::Skip(n) => {
-            let n = *n as usize;
+            let n = crate::scn::count_param(*n);
             Box::new(move |s| Arc::new(callbag::skip(n)(s)))
         }
         Stage::ConcatWith(ps) => {
@@ -669,6 +670,8 @@ fn shrink_pipe(p: &Pipe) -> Vec<Pipe> {
             out.push(q);
         };
         match s {
+            Stage::Take(255) => push(Stage::Take(6)),
+            Stage::Skip(255) => push(Stage::Skip(6)),
             Stage::Take(n) if *n > 1 => push(Stage::Take(n - 1)),
             Stage::Skip(n) if *n > 0 => push(Stage::Skip(n - 1)),
             Stage::ConcatWith(ps) | Stage::FlatMap(ps) => {
